@@ -818,6 +818,14 @@ func (u *Unit) opaqueIfaceEvent(c *ast.CallExpr, se *ast.SelectorExpr, iname str
 	}
 	env.tr.args = u.define(env, "trargs", Store(env.tr.args, at0, row(args)))
 	env.tr.ress = u.define(env, "trress", Store(env.tr.ress, at0, row(vals)))
+	for k, a := range args {
+		env.alias[fmt.Sprintf("_ifarg%d", k)] = a.Term
+		env.aliasTy[fmt.Sprintf("_ifarg%d", k)] = a.Ty
+	}
+	for k, v := range vals {
+		env.alias[fmt.Sprintf("_ifres%d", k)] = v.Term
+		env.aliasTy[fmt.Sprintf("_ifres%d", k)] = v.Ty
+	}
 	u.callbackHavoc(env)
 	u.assumeUsed("implementations of " + iname + " act on library objects only through exported methods")
 	return ret(env, vals...)
